@@ -10,6 +10,7 @@ import (
 	"context"
 	"fmt"
 	"io"
+	"net"
 	"os"
 	"sync"
 	"sync/atomic"
@@ -17,12 +18,16 @@ import (
 
 	"go.etcd.io/etcd/api/v3/etcdserverpb"
 	"go.etcd.io/etcd/api/v3/mvccpb"
+	"google.golang.org/grpc"
 	"google.golang.org/grpc/metadata"
 
 	"github.com/kubewharf/kubebrain/pkg/backend"
 	"github.com/kubewharf/kubebrain/pkg/server/etcd"
+	"github.com/kubewharf/kubebrain/pkg/server/service"
 	"github.com/kubewharf/kubebrain/pkg/server/service/etcdproxy"
 	"github.com/kubewharf/kubebrain/pkg/server/service/leader"
+
+	"github.com/kubewharf/kubebrain/pkg/storage"
 
 	"kbverif/lib"
 )
@@ -299,7 +304,7 @@ func txnRespCoq(r *etcdserverpb.TxnResponse, err error) (string, string) {
 
 // ---------- the system under test ----------
 
-var idlePolls, subscribed int64
+var idlePolls, subscribed, mainSeq int64
 
 type sut struct {
 	be    backend.Backend
@@ -315,6 +320,8 @@ type engGate struct {
 	arrived chan struct{}
 	release chan struct{}
 }
+
+var sharedKv storage.KvStorage
 
 var eg = &engGate{arrived: make(chan struct{}, 1), release: make(chan struct{})}
 
@@ -364,6 +371,7 @@ func newSut(scratch string, base uint64) (*sut, error) {
 		return nil, err
 	}
 	kv := &lib.Wrap{KvStorage: kv0, Before: eg.before}
+	sharedKv = kv
 	be := backend.NewBackend(kv, backend.Config{Prefix: "/registry", Identity: "c16", EnableEtcdCompatibility: true}, &lib.NopMetrics{})
 	be.SetCurrentRevision(base)
 	p := &peers{Stub: &leader.Stub{ElectionInfo: leader.ElectionInfo{LeaderAddress: "127.0.0.1:0", IsLeader: true}}, EtcdProxy: etcdproxy.NewDisabledEtcdProxy()}
@@ -908,7 +916,7 @@ func runHistory(s *sut, w *lib.Writer, idx int, rnd *lib.Rand, pl plan) {
 			// second watch on the same stream, from a revision the client has seen (+1 as the apiserver does)
 			startRev = seenRevs[rnd.Intn(len(seenRevs))] + 1
 			sub1 := atomic.LoadInt64(&subscribed)
-			mw.in <- &etcdserverpb.WatchRequest{RequestUnion: &etcdserverpb.WatchRequest_CreateRequest{CreateRequest: &etcdserverpb.WatchCreateRequest{Key: ns, RangeEnd: prefixEnd(ns), StartRevision: startRev, PrevKv: true}}}
+			mw.in <- &etcdserverpb.WatchRequest{RequestUnion: &etcdserverpb.WatchRequest_CreateRequest{CreateRequest: &etcdserverpb.WatchCreateRequest{Key: ns, RangeEnd: prefixEnd(ns), StartRevision: startRev, PrevKv: false}}} // without the flag: the shim attaches PrevKv all the same
 			if !lib.WaitUntil(2*time.Second, func() bool { _, ok := createdID(mw.snapshot(), 1); return ok && atomic.LoadInt64(&subscribed) > sub1 }) {
 				failed = "second watch not created"
 			}
@@ -1049,6 +1057,81 @@ func corpus() []plan {
 			T(func(ns []byte) Txn { return shapeCreate(K(ns, "a"), []byte("2")) }),
 			T(func(ns []byte) Txn { return shapeUpdate(K(ns, "a"), []byte("3"), 0) }),
 			R(func(ns []byte) Rng { return Rng{Key: K(ns, "a")} }), all}},
+	}
+}
+
+// ---------- a prefix watch through a follower whose etcd proxy relays it to the leader ----------
+
+// runProxyWatch: the leader's RPCServer on a loopback gRPC listener; a follower RPCServer (own backend over the same
+// engine) built with the real etcdproxy (service.NewPeerService, EnableEtcdProxy) pointing at it.  A prefix watch with
+// prev_kv is opened on the FOLLOWER; the history (create, guarded delete, sentinel) runs on the leader.
+func runProxyWatch(s *sut, w *lib.Writer, idx int) {
+	ns := []byte(fmt.Sprintf("/h%05d/", idx))
+	base := s.be.GetCurrentRevision()
+	failed := ""
+	lis, err := net.Listen("tcp", "127.0.0.1:0")
+	if err != nil {
+		return
+	}
+	g := grpc.NewServer()
+	s.srv.Register(g)
+	go func() { _ = g.Serve(lis) }()
+	defer g.Stop()
+	m := &lib.NopMetrics{}
+	fb := backend.NewBackend(sharedKv, backend.Config{Prefix: "/registry", Identity: "c16-follower", EnableEtcdCompatibility: true}, m)
+	fb.SetCurrentRevision(base)
+	fpeers := service.NewPeerService(&leader.Stub{ElectionInfo: leader.ElectionInfo{IsLeader: false, LeaderAddress: lis.Addr().String()}}, m, fb, service.Config{EnableEtcdProxy: true})
+	fsrv := etcd.New(fb, m, fpeers)
+
+	startRev := int64(base) + 1
+	mw := newMemWatch()
+	wdone := make(chan error, 1)
+	go func() { wdone <- fsrv.Watch(mw) }()
+	mw.in <- &etcdserverpb.WatchRequest{RequestUnion: &etcdserverpb.WatchRequest_CreateRequest{CreateRequest: &etcdserverpb.WatchCreateRequest{Key: ns, RangeEnd: prefixEnd(ns), StartRevision: startRev, PrevKv: true}}}
+	if !lib.WaitUntil(3*time.Second, func() bool { _, ok := createdID(mw.snapshot(), 0); return ok }) {
+		failed = "watch on the follower not created"
+	}
+	var steps []string
+	var js []interface{}
+	do := func(t Txn, label string) *etcdserverpb.TxnResponse {
+		resp, err, _ := s.txn(t)
+		oc, _ := txnRespCoq(resp, err)
+		steps = append(steps, lib.App("STxn", t.coq(), oc, listingCoq(s, ns)))
+		js = append(js, map[string]interface{}{"txn": label, "req": t.pb().String(), "resp": fmt.Sprint(resp), "err": fmt.Sprint(err)})
+		return resp
+	}
+	kA := K(ns, "a")
+	r1 := do(shapeCreate(kA, []byte("v1")), "create")
+	var rev1 int64
+	if r1 != nil && r1.Header != nil {
+		rev1 = r1.Header.Revision
+	}
+	do(shapeUpdate(kA, []byte("v2"), rev1), "update")
+	do(shapeDelete(kA, rev1+1), "guarded delete")
+	sent := K(ns, "~end")
+	do(shapeCreate(sent, []byte("end")), "sentinel")
+	id0, _ := createdID(mw.snapshot(), 0)
+	if !lib.WaitUntil(5*time.Second, func() bool { return bytes.Equal(lastEventKey(mw.snapshot(), id0), sent) }) && failed == "" {
+		failed = "sentinel event did not arrive through the proxy"
+	}
+	watchCoq, nEvents := eventsCoq(mw.snapshot(), id0)
+	var evj []string
+	for _, b := range mw.snapshot() {
+		for _, e := range b.Events {
+			evj = append(evj, fmt.Sprintf("%v %s@%d prev=%v", e.Type, e.Kv.Key, e.Kv.ModRevision, e.PrevKv != nil))
+		}
+	}
+	mw.cancel()
+	select {
+	case <-wdone:
+	case <-time.After(3 * time.Second):
+		failed = "follower watch stream did not end"
+	}
+	cs := lib.Case{Kind: "corpus-proxy-follower-watch", Coq: lib.App("C16Hist", lib.N(base), lib.Bytes(ns), lib.List(steps), "[]", lib.Some(lib.Pair(lib.Z(startRev), watchCoq))),
+		JSON: map[string]interface{}{"ns": string(ns), "base": base, "steps": js, "events_through_follower": evj, "n": nEvents}, Outcomes: []string{"proxy-watch"}}
+	w.Add(cs)
+	if failed != "" {
+		w.Fail(lib.ImplFailure{CaseID: w.Len() - 1, What: failed, Case: cs.JSON})
 	}
 }
 
@@ -1219,8 +1302,15 @@ func main() {
 	backend.VerifYieldHook = func(p string) {
 		switch p {
 		case "seq.idle":
-			atomic.AddInt64(&idlePolls, 1)
-			time.Sleep(30 * time.Microsecond)
+			// only the sequencer of the system under test counts for settle(): it is the first one to poll
+			// (other backends — the proxy scenario's follower — are created later and only sleep here)
+			id := lib.GoID()
+			if atomic.CompareAndSwapInt64(&mainSeq, 0, id) || atomic.LoadInt64(&mainSeq) == id {
+				atomic.AddInt64(&idlePolls, 1)
+				time.Sleep(30 * time.Microsecond)
+			} else {
+				time.Sleep(200 * time.Microsecond)
+			}
 		case "watch.subscribed":
 			atomic.AddInt64(&subscribed, 1)
 		}
@@ -1248,6 +1338,8 @@ func main() {
 	runGated(s, w, idx, true)
 	idx++
 	runBurst(s, w, idx)
+	idx++
+	runProxyWatch(s, w, idx)
 	idx++
 	for i := 0; i < nSup; i++ {
 		runHistory(s, w, idx, rnd.Fork(), plan{kind: "supported-history", nOps: 4 + rnd.Intn(9), watch: true, watchRev: i%3 == 0})
